@@ -153,7 +153,7 @@ def prune_cache(keep=3):
 
 class Mono:
     def __init__(self, path):
-        self.j = json.load(open(path))
+        self.j = mir.normalise(json.load(open(path)))
         self.inst = self.j['instances']
         self.roots = {r['path']: r['instance'] for r in self.j['roots']}
 
